@@ -27,8 +27,27 @@
      C05_block_algorithm_sets_zero_on_hidden   so does SetsZeroOnHidden
      C05_block_engine_hidden_invisible   hence the conclusion of C05_hidden_blind_engine for every engine whose nodes are block
                                          containers or leaves (any function of the node's own style and input)
+   FLEX ALGORITHM as a resumption (Model/FlexAlg.v: ALL of compute_flexbox_layout / compute_preliminary over the engine interface --
+   every measure_child_size / perform_child_layout a Query, every set_unrounded_layout a SetLayout; validated event by event, bit for bit,
+   against the implementation by `vh flexalg cases`, lib/props/_flexalg.py):
+     C05_flex_algorithm_shape            the traffic: measuring (and, in rows with baseline-aligned children, baseline) queries to in-flow
+                                         children; unless ComputeSize: query + stored layout for every in-flow child, then for every
+                                         box-generating absolute child, then -- for every display:none child, exactly once -- the
+                                         CANONICAL hidden query, its answer ignored, and Layout::with_order(i); Ret
+     C05_flex_algorithm_hidden_blind     HiddenBlind HOLDS for it (no longer a premise for flex containers)
+     C05_flex_algorithm_sets_zero_on_hidden   so does SetsZeroOnHidden
+     C05_blockflex_engine_hidden_invisible    hence the conclusion of C05_hidden_blind_engine for every engine whose nodes are block
+                                         containers, flex containers or leaves
+     C01_flex_algorithm_satisfies_interface   the interface hypotheses of the C01 / C15 / C05 engine theorems are THEOREMS for it: WF (no
+                                         hidden-mode query), H1 (a PerformLayout evaluation PerformLayout-queries every child), H3 (and
+                                         stores a layout for every child, a display:none child's after its last query), HQ (a display:none
+                                         child never receives a size query)
+     C01_flex_algorithm_NS_partial / _NS_refuted   NS (a ComputeSize evaluation issues only ComputeSize queries and stores nothing) holds for
+                                         columns and without baseline-aligned children, and FAILS for a row with two baseline-aligned
+                                         children: calculate_children_base_lines (flexbox.rs l.1440) performs child layouts before the
+                                         ComputeSize return of l.359 -- a second source of the C01 "ComputeSize scribble" finding
    Interface hypotheses (premises, validated on the implementation by the metamorphic oracle `vh c05 oracle` and -- WF, H1 --
-   by the event trace): WF, H1 (EngineDirty.v), SetsZeroOnHidden, HiddenBlind. *)
+   by the event trace): WF, H1 (EngineDirty.v), SetsZeroOnHidden, HiddenBlind -- now only for the GRID algorithm. *)
 From Coq Require Import List Bool Arith NArith ZArith QArith.
 From TV Require Import Num.Num Gen.BlockGen Model.Block.
 From TV Require Import Model.FiltersBase Gen.FiltersGen Model.ItemFilters Proofs.ItemFiltersBase Proofs.ItemFiltersHiddenBlock Proofs.ItemFiltersHidden Model.BlockAlg Proofs.BlockAlgBlind.
@@ -380,6 +399,119 @@ Example C05_grid_example :
   grid_placement_run 0 0 FRow [(Hidden, auto_child)].
 Proof. exact hidden_line_invisible. Qed.
 
+(* ---------------------------------------------------------------------------------------------- the flex algorithm *)
+From TV Require Import Model.FlexAlgBase Model.FlexAlg Model.EngineLift Model.BlockFlexEngine Model.EngineLayouts.
+From TV Require Import Proofs.FlexAlgStruct Proofs.FlexAlgShape Proofs.FlexAlgIface Proofs.FlexAlgBlind Proofs.BlockFlexEngine
+  Proofs.EngineNoScribble.
+
+(* what compute_flexbox_layout does at the tree interface, for every container style, child-style list and input.
+   Reading for a display:none child c (hidden_at st c): it is neither in-flow nor absolute (disjoint classes), so it receives no
+   measuring / baseline query (Pre), no query at all when the run mode is ComputeSize (the tail is Ret), and otherwise exactly one query
+   (it occurs once in hidden_nodes) -- hidden_child_input = perform_child_layout(NONE, NONE, MAX_CONTENT, InherentSize, FALSE) -- whose
+   answer neither the stored layout (f_with_order c) nor anything that follows depends on (QSLc) *)
+Theorem C05_flex_algorithm_shape :
+  forall (T : Type) (N : Num T) (s : FStyle T) (st : list (FStyle T)) (i : FIn T),
+    Pre (in_flow_at st) (flex_BL s st)
+        (fun a => (qi_mode i = ComputeSize /\ IsRet a) \/
+                  (qi_mode i <> ComputeSize /\
+                   exists walk, (forall c, In c walk <-> in_flow_at st c) /\
+                     QSL q_layout l_any
+                         (QSL q_layout l_any (QSLc q_hidden l_with_order IsRet (hidden_nodes st)) (abs_nodes st)) walk a))
+        (flex_alg s st i) /\
+    (forall c, In c (abs_nodes st) <-> abs_at st c) /\ (forall c, In c (hidden_nodes st) <-> hidden_at st c) /\
+    NoDup (hidden_nodes st) /\ (forall c, hidden_at st c -> ~ in_flow_at st c /\ ~ abs_at st c) /\
+    qi_mode (hidden_child_input (T := T)) = PerformLayout.
+Proof.
+  intros T N s st i. split; [apply flex_alg_shape|].
+  split; [apply abs_nodes_iff|]. split; [apply hidden_nodes_iff|]. split; [apply hidden_nodes_NoDup|].
+  split; [apply classes_disjoint|reflexivity].
+Qed.
+
+(* the two child loops of the model are the source's (translated on every run, Gen/FiltersGen.v): which children the hidden loop visits
+   (compute_preliminary l.376-392) and which the absolute pass skips (l.2076); the translator additionally checks that the hidden loop issues
+   the canonical perform_child_layout followed by set_unrounded_layout(child, &Layout::with_order(order)), and that EVERY other call of
+   flexbox.rs on `tree` that addresses a node is in one of the item functions and addresses `<item>.node` -- a new call site refuses *)
+Theorem C05_flex_model_loops_are_source :
+  forall (T : Type) (N : Num T) (st : list (FStyle T)),
+    hidden_flags st = map (fun s => flex_hidden_pass_visits (f_bgm s) (f_position s)) st /\
+    abs_children st = filter (fun c => negb (flex_absolute_pass_skips (@f_position T) (@f_bgm T) (snd c))) (g_enumerate st) /\
+    flex_hidden_pass_is_canonical = true /\ flex_tree_calls_address_item_only = true.
+Proof. intros T N st. apply flex_loops_are_generated. Qed.
+
+(* HiddenBlind, and its witness: the algorithm applied to the child styles is the algorithm applied to their images under
+   f_hidden_view, which sends every display:none style to ONE bare display:none style *)
+Theorem C05_flex_algorithm_hidden_blind :
+  forall (T : Type) (N : Num T),
+    HiddenBlind (FStyle T) (FIn T) (LayoutOutput T) (FLay T) f_is_none flex_alg /\
+    (forall s st i, flex_alg s st i = flex_alg s (map f_hidden_view st) i) /\
+    (forall a b : FStyle T, f_is_none a = true -> f_is_none b = true -> f_hidden_view a = f_hidden_view b).
+Proof.
+  intros T N. split; [apply flex_alg_hidden_blind|]. split.
+  - intros s st i. apply flex_alg_none_rel. apply f_hidden_view_rel.
+  - intros a b Ha Hb. unfold f_hidden_view. rewrite Ha, Hb. reflexivity.
+Qed.
+
+Theorem C05_flex_algorithm_sets_zero_on_hidden :
+  forall (T : Type) (N : Num T),
+    SetsZeroOnHidden (FStyle T) (FIn T) (LayoutOutput T) (FLay T) f_is_none flex_alg f_zeroish /\
+    (forall n : nat, f_zeroish (f_with_order (T := T) n)).
+Proof.
+  intros T N. split; [apply flex_alg_SZH|]. intros n. exists (Z.of_nat n). reflexivity.
+Qed.
+
+(* engines made of block containers, flex containers and leaves (`kind` = the dispatch of TaffyView::compute_child_layout on the node's
+   own style): replacing display:none subtrees changes nothing elsewhere -- no premise on the algorithms is left *)
+Theorem C05_blockflex_engine_hidden_invisible :
+  forall (T : Type) (N : Num T) (kind : BFStyle T -> NodeKind) (pre : BStyle T -> BIn T -> BIn T) (abs_child : @AbsChild T)
+         (leaf : BFStyle T -> FIn T -> LayoutOutput T)
+         (mode : FIn T -> RunMode) (in_eqb : FIn T -> FIn T -> bool) (hidden_out : LayoutOutput T) (zero_lay : FLay T),
+    let algo := blockflex_algo kind pre abs_child leaf in
+    forall k k', hsim (BFStyle T) bf_is_none k k' ->
+    forall f i,
+      plain (BFStyle T) (FIn T) (LayoutOutput T) (FLay T) mode bf_is_none hidden_out algo f k i =
+      plain (BFStyle T) (FIn T) (LayoutOutput T) (FLay T) mode bf_is_none hidden_out algo f k' i /\
+      orel (BFStyle T) (FIn T) (LayoutOutput T) (FLay T) bf_is_none
+           (memo (BFStyle T) (FIn T) (LayoutOutput T) (FLay T) mode in_eqb bf_is_none hidden_out zero_lay algo f
+                 (fresh (BFStyle T) (FIn T) (LayoutOutput T) (FLay T) zero_lay k) i)
+           (memo (BFStyle T) (FIn T) (LayoutOutput T) (FLay T) mode in_eqb bf_is_none hidden_out zero_lay algo f
+                 (fresh (BFStyle T) (FIn T) (LayoutOutput T) (FLay T) zero_lay k') i).
+Proof.
+  intros T N kind pre abs_child leaf mode in_eqb hidden_out zero_lay algo k k' Hs f i.
+  apply C05_hidden_blind_engine; [|exact Hs]. apply blockflex_algo_hidden_blind.
+Qed.
+
+(* the interface hypotheses of the engine theorems of C01 / C15 / C05 (Proofs/EngineDirty.v WFAlg, Visits; Model/EngineLayouts.v SetsLast,
+   NoHiddenSize), for the engine's `mode` = the run mode of the input *)
+Theorem C01_flex_algorithm_satisfies_interface :
+  forall (T : Type) (N : Num T) (s : FStyle T) (st : list (FStyle T)) (i : FIn T),
+    (* WF *) WFAlg (FIn T) (LayoutOutput T) (FLay T) (@qi_mode T) (flex_alg s st i) /\
+    (* H1 *) (qi_mode i = PerformLayout -> Visits (FIn T) (LayoutOutput T) (FLay T) (@qi_mode T) (seq 0 (length st)) (flex_alg s st i)) /\
+    (* H3 *) (qi_mode i = PerformLayout ->
+              SetsLast (FIn T) (LayoutOutput T) (FLay T) (nones (FStyle T) f_is_none st) (seq 0 (length st)) (flex_alg s st i)) /\
+    (* HQ *) NoHiddenSize (FIn T) (LayoutOutput T) (FLay T) (@qi_mode T) (nones (FStyle T) f_is_none st) (flex_alg s st i).
+Proof.
+  intros T N s st i. split; [apply flex_alg_WF|]. split; [apply flex_alg_H1|]. split; [apply flex_alg_H3|apply flex_alg_HQ].
+Qed.
+
+(* NS: only for columns and for containers without a baseline-aligned child ... *)
+Theorem C01_flex_algorithm_NS_partial :
+  forall (T : Type) (N : Num T) (s : FStyle T) (st : list (FStyle T)) (i : FIn T),
+    fs_row s = false \/
+    Forall (fun sc => falign_is_baseline (opt_unwrap_or (fs_align_self sc) (container_align_items s)) = false) st ->
+    qi_mode i = ComputeSize -> SizeOnly (FIn T) (LayoutOutput T) (FLay T) (@qi_mode T) (flex_alg s st i).
+Proof. intros T N s st i. apply flex_alg_NS_partial. Qed.
+
+(* ... and not in general: a row (align-items: baseline) with two 10 x 20 / 10 x 30 children, asked for its size under a max-content
+   constraint: after the two min-content measurements the next event is a PerformLayout / ContentSize query to child 0
+   (calculate_children_base_lines, flexbox.rs l.1440).  On the implementation: `vh flexalg baseline` (the same container: the
+   PerformLayout query stores the layout of a grandchild while the root only computes a size: SCRIBBLES 1) *)
+Theorem C01_flex_algorithm_NS_refuted :
+  exists (s : FStyle XQ) (st : list (FStyle XQ)) (i : FIn XQ),
+    qi_mode i = ComputeSize /\
+    ~ SizeOnly (FIn XQ) (LayoutOutput XQ) (FLay XQ) (@qi_mode XQ) (flex_alg s st i) /\
+    first_non_size 8 (flex_alg s st i) = Some (0%nat, true, true).
+Proof. exists ns_container, [ns_child 20; ns_child 30], ns_input. exact flex_alg_NS_refuted. Qed.
+
 Print Assumptions C05_hide_all_zero.
 Print Assumptions C05_hidden_zero.
 Print Assumptions C05_hidden_zero_self.
@@ -401,3 +533,11 @@ Print Assumptions C05_model_filters_are_source.
 Print Assumptions C05_block_algorithm_hidden_blind.
 Print Assumptions C05_block_algorithm_sets_zero_on_hidden.
 Print Assumptions C05_block_engine_hidden_invisible.
+Print Assumptions C05_flex_algorithm_shape.
+Print Assumptions C05_flex_model_loops_are_source.
+Print Assumptions C05_flex_algorithm_hidden_blind.
+Print Assumptions C05_flex_algorithm_sets_zero_on_hidden.
+Print Assumptions C05_blockflex_engine_hidden_invisible.
+Print Assumptions C01_flex_algorithm_satisfies_interface.
+Print Assumptions C01_flex_algorithm_NS_partial.
+Print Assumptions C01_flex_algorithm_NS_refuted.
